@@ -12,7 +12,7 @@ import json
 import os
 import re
 from vpc.core import cN, cstr, clist, copt, cbool
-from props.C17 import peer_id, good_addr, rand_component, cproto, refresh_lock
+from props.C17 import peer_id, good_addr, rand_component, cproto, refresh_lock, pipeline_retry
 
 IMPORTS = "Require Import V.model.Parsers V.model.BootCache."
 THEOREMS = ["constants_c18", "bounded_after_cleanup", "bounded_without_sync", "sync_breaks_bound_refuted",
@@ -500,10 +500,6 @@ def run(ctx):
     binary = ctx.cargo_build("c18")
     cases = ctx.corpus() + ([] if ctx.replay else gen(ctx))
     resolve_addrs(ctx, binary, cases)
-    # other checks may have regenerated gen/Consts.v while cargo was waiting for its lock: make sure the model's
-    # .vo files the case files import are consistent again (no-op otherwise)
-    ctx.regen_consts()
-    ctx.coq_make(["props/C18.v"])
-    ctx.pipeline(cases, binary, oracle, model_term, IMPORTS, nontrivial=nontrivial, show=show, shard_size=12,
+    pipeline_retry(ctx, "props/C18.v", cases, binary, oracle, model_term, IMPORTS, nontrivial=nontrivial, show=show, shard_size=12,
                  relation="lock-step: every step of a history on the real CacheData / BootstrapCacheStore / cache file == "
                           "the same step in model/BootCache.v (dstep_ok / sstep_ok)")
